@@ -168,7 +168,7 @@ example : Crd.Dom ⟨[" 1CCN FROM PSF OR PDB - OPTIMIZED".toList, "  DATE:     6
 
 Full statement: every file of the ASE layout (pairs in any order, any declared columns) loads as the object it
 denotes.  Proved: the title-line layer — tokenisation (`extxyz_title_tokens`), `Lattice` (`extxyz_lattice_rows`),
-`Properties` column typing (`extxyz_properties_partial`).  Missing: the atom-record loop over the typed columns and
+`Properties` column typing (`extxyz_properties_spec`).  Missing: the atom-record loop over the typed columns and
 the assembly of the whole object; both are executed in the correspondence (`load-spec:extxyz`, `load-corpus`) on
 generated and repository files, and checked against an independent writer in the direct search. -/
 
@@ -203,13 +203,14 @@ theorem extxyz_lattice_rows (tb : List (Str × Bool)) (d0 : ExtXyz.TitleData) (d
   simp only [k1, k2, if_false, if_true, ExtXyz.splitWs_renderLattice d _ h, ExtXyz.mapOpt_pyFloat_render d _ h]
   rfl
 
-/-- `Properties=…` (partial: declarations given as `name:type:ncols` triples joined by `:`): the value is cut back
-into its triples — the step on which the column typing rests; the typing itself (`Z` before `species`, `pos`/`masses`/
-`force` mapped, others to `extra` with the declared type and width) is the model's `propColumn`, exercised by the
-correspondence. -/
-theorem extxyz_properties_partial (parts : List Str) (hne : parts ≠ []) (h : ∀ t ∈ parts, ':' ∉ t) :
-    ExtXyz.splitOn ':' (List.intercalate [':'] parts) = parts :=
-  ExtXyz.splitOn_intercalate parts hne h
+/-- `Properties=…`, **every list of declarations**: the value `name:type:ncols:…` is typed as the published description
+says — `Z` gives `atnums` when present (then `species` is an ordinary string column of `extra`), otherwise `species` does;
+`pos` → `atcoords` (3 reals), `masses` → `atmasses`, `force` → `atgradient` (3 reals, negated on loading); every other name
+goes to `extra[name]` with the declared type (`S`/`R`/`I`/`L`) and width (`1` = one scalar per atom). -/
+theorem extxyz_properties_spec (ps : List ExtXyz.Prop') (hne : ps ≠ []) (hok : ∀ p ∈ ps, ExtXyz.okProp p)
+    (cols : List ExtXyz.Column) (hc : ExtXyz.mapOpt (ExtXyz.colOf (decide (ExtXyz.Prop'.z ∈ ps))) ps = some cols) :
+    ExtXyz.parseProperties (ExtXyz.renderProps ps) = .ok cols :=
+  ExtXyz.parseProperties_spec ps hne hok cols hc
 
 /-- column typing on the declarations of the repository's fixtures: `species:S:1:pos:R:3:Z:I:1:force:R:3` gives
 `species` → `extra` (string), `pos` → `atcoords`, `Z` → `atnums`, `force` → `atgradient`; without `Z`, `species` gives
